@@ -413,6 +413,88 @@ def malformed_case(rng):
     return c
 
 
+# ---------------------------------------------------------------------------------------------------
+# precision stream: generic complex128 operators and generic rates (nothing here is dyadic)
+def gen_precision_case(rng):
+    dim = rng.choice([2, 3])
+    ising = rng.random() < 0.6
+    k = rng.randint(1, 4)
+    ops = [[[(rng.gauss(0, 1) * 10 ** rng.uniform(-2, 2), rng.gauss(0, 1) * 10 ** rng.uniform(-2, 2)) for _ in range(dim)]
+            for _ in range(dim)] for _ in range(k)]
+    mag = lambda: 10 ** rng.uniform(-5, 2) * 1.2345678901234567  # noqa: E731
+    return {"dim": dim, "ising": ising, "eff_ops": ops, "eff_rates": [mag() for _ in range(k)],
+            "relaxation_rate": mag() if (ising and rng.random() < 0.5) else 0.0,
+            "dephasing_rate": mag() if rng.random() < 0.5 else 0.0,
+            "depolarizing_rate": mag() if rng.random() < 0.5 else 0.0, "kind": "precision"}
+
+
+def check_precision_case(ctx, case):
+    """real NoiseModel -> real operators; oracle: dtype complex128, every entry within 1e-13 (relative to the
+    operator's largest entry) of the float64 value sqrt(rate * k) * pattern / sqrt(rate_k) * A_k re-based"""
+    import numpy as np
+    import pulser
+    import torch
+    from emu_base.jump_lindblad_operators import compute_noise_from_lindbladians
+    from emu_base.pulser_adapter import _get_all_lindblad_noise_operators
+
+    dim, ising = case["dim"], case["ising"]
+    A = [np.array([[complex(a, b) for a, b in row] for row in op], dtype=complex) for op in case["eff_ops"]]
+    kw = {"eff_noise_rates": tuple(case["eff_rates"]), "eff_noise_opers": tuple(A)}
+    for name in ("relaxation_rate", "dephasing_rate", "depolarizing_rate"):
+        if case[name]:
+            kw[name] = case[name]
+    if dim == 3:
+        kw["with_leakage"] = True
+    nm = pulser.NoiseModel(**kw)
+    ops = _get_all_lindblad_noise_operators(nm, dim=dim, interact_type="ising" if ising else "XY")
+    noise = compute_noise_from_lindbladians(ops, dim=dim)
+
+    def bad(what, detail):
+        ctx.violation(f"{what}: {detail}", {"case": case, "finding_key": "lindblad-op-lost-precision", "kind": "precision"})
+        return False
+
+    for i, o in enumerate(list(ops) + [noise]):
+        if o.dtype != torch.complex128:
+            return bad("dtype", f"operator {i} has dtype {o.dtype}, not complex128")
+    got = [o.numpy() for o in ops]
+    want = []   # list of lists of acceptable references (both basis-change variants for 3x3 ising: F-12 is judged elsewhere)
+    z = np.zeros((dim, dim), dtype=complex)
+    for t in nm.noise_types:
+        if t == "relaxation":
+            m = z.copy(); m[0, 1] = math.sqrt(case["relaxation_rate"]); want.append([m])
+        elif t == "dephasing":
+            c = math.sqrt(case["dephasing_rate"] / 2)
+            m = np.diag([c if a != 1 else -c for a in range(dim)]).astype(complex); want.append([m])
+        elif t == "depolarizing":
+            c = math.sqrt(case["depolarizing_rate"] / 4)
+            x = z.copy(); x[0, 1] = c; x[1, 0] = c
+            y = z.copy(); y[0, 1] = -1j * c; y[1, 0] = 1j * c
+            zz = z.copy(); zz[0, 0] = c; zz[1, 1] = -c
+            want += [[x], [y], [zz]]
+        elif t == "eff_noise":
+            for r, a in zip(case["eff_rates"], A):
+                L = math.sqrt(r) * a
+                if ising:
+                    f = L.copy(); f[:2, :2] = L[:2, :2][::-1, ::-1]
+                    perm = [1, 0] + list(range(2, dim))
+                    want.append([f, L[np.ix_(perm, perm)]])
+                else:
+                    want.append([L])
+    if len(got) != len(want):
+        return bad("count", f"{len(got)} operators, expected {len(want)}")
+    for i, (g, refs) in enumerate(zip(got, want)):
+        scale = max(float(np.abs(refs[0]).max()), 1e-300)
+        err = min(float(np.abs(g - r).max()) for r in refs) / scale
+        if err > 1e-13:
+            return bad("value", f"operator {i} deviates by {err:.3e} (relative) from the float64 value; got {g.tolist()}")
+    ref_noise = -0.5j * sum((g.conj().T @ g for g in got), start=z)
+    scale = max(float(np.abs(ref_noise).max()), 1e-300)
+    err = float(np.abs(noise.numpy() - ref_noise).max()) / scale
+    if err > 1e-12:
+        return bad("value", f"compute_noise_from_lindbladians deviates by {err:.3e} (relative) from -0.5j*sum(L^+ L)")
+    return True
+
+
 def corpus_cases():
     p = common.VERIF / "corpus" / "C24.json"
     return json.loads(p.read_text()) if p.exists() else []
@@ -650,6 +732,18 @@ def run(ctx):
                      "(C24_eff_noise_basis_change covers 3x3 ising operators only for RebasePermute)")
     for c, r, ref in zip(cases, impl, refs):
         property_check(ctx, c, r, ref)
+    # precision stream (generic float64 / complex128 data, dtype oracle)
+    p_ok, p_detail = True, ""
+    for _ in range(ctx.n(60, 600)):
+        pc = gen_precision_case(rng)
+        try:
+            check_precision_case(ctx, pc)
+            ctx.count_case({"precision": {k: pc[k] for k in ("dim", "ising", "eff_rates", "relaxation_rate",
+                                                              "dephasing_rate", "depolarizing_rate")}}, True)
+        except Exception:  # noqa: BLE001
+            import traceback
+            p_ok, p_detail = False, f"case={pc}\n{traceback.format_exc()}"
+    ctx.obligation("precision-stream ran on generic complex128 operators and rates", p_ok, p_detail, kind="correspondence")
     ctx.rule = ("corpus + every elementary E_ij (2x2, 3x3, ising, XY) + every Lindbladian kind alone/combined + multi-operator "
                 "eff_noise models (2-5 pairwise distinct operators; an exact zero rate at every position, equal, distinct, all-zero "
                 "rate vectors) + random real "
@@ -670,6 +764,9 @@ def run(ctx):
 def replay(ctx, path):
     rp = json.loads(open(path).read())
     c = rp["case"]
+    if rp.get("kind") == "precision":
+        print("replay precision case:", check_precision_case(ctx, c))
+        return
     r = impl_run(c)
     ref = pulser_reference(c) if c["real"] else None
     print("replay: real ops:", str(r["all"])[:600])
